@@ -18,13 +18,16 @@ Notation three := (gstate * meanstate * option ddq)%type.
 Notation repq := (option ddq * option meanq * option ddq)%type.   (* current, mean, max *)
 Notation balq := (Q * Q)%type.
 
-Inductive gop := GU (t : Z) (v : Q) | GG.
+(** [GR]/[AR]/[IR]/[SRI]/[SRA]: persist / restore — the generator is replaced by the serde_json
+    round trip of itself; [changed] = the harness found restored <> original (PartialEq) *)
+Inductive gop := GU (t : Z) (v : Q) | GG | GR (changed : bool).
 Record gobs := mkGObs { go_ret : option ddq; go_state : gstate; go_gen : option ddq }.
-Inductive aop := AU (t : Z) (total free : Q) | AG.
-Inductive iop := IU (t : Z) (pnl : Q) | IG.
+Inductive aop := AU (t : Z) (total free : Q) | AG | AR (changed : bool).
+Inductive iop := IU (t : Z) (pnl : Q) | IG | IR (changed : bool).
 (** TradingSummaryGenerator: a closed position of instrument [k], a balance of asset [k],
     generate() *)
-Inductive sop := SP (k : nat) (t : Z) (pnl : Q) | SB (k : nat) (t : Z) (total free : Q) | SG.
+Inductive sop := SP (k : nat) (t : Z) (pnl : Q) | SB (k : nat) (t : Z) (total free : Q) | SG
+               | SRI (k : nat) (changed : bool) | SRA (k : nat) (changed : bool).
 Notation istate := (Z * Q * three)%type.        (* time_engine_now, pnl_raw, the three generators *)
 Notation astate := (option balq * three)%type.  (* balance_now, the three generators *)
 Notation iobs := (option (Q * repq) * istate)%type.
@@ -35,10 +38,12 @@ Inductive case :=
 | CGen (start : option (Z * Q)) (ops : list gop) (obs0 : gobs) (obs : list gobs)
     (* DrawdownGenerator::default() / init(start); per op: value returned by update / generate,
        all fields afterwards, generate() of a clone *)
-| CMax (init : option ddq) (ds : list ddq)
+| CMax (init : option ddq) (ds : list ddq) (rts : list bool) (rt_changed : bool)
        (obs0 : option ddq * option ddq) (obs : list (option ddq * option ddq))
-    (* MaxDrawdownGenerator: field [max] and generate() after every update *)
-| CMean (init : option ddq) (ds : list ddq)
+    (* MaxDrawdownGenerator: field [max] and generate() after every update; [rts] = after which
+       updates the generator went through persist / restore before being observed (a no-op for
+       the model), [rt_changed] = some restored generator differed from the original *)
+| CMean (init : option ddq) (ds : list ddq) (rts : list bool) (rt_changed : bool)
         (obs0 : meanstate * option meanq) (obs : list (meanstate * option meanq))
 | CAsset (start : Z * Q * Q) (ops : list aop) (obs0 : option balq * three)
          (obs : list (option (option balq * repq) * (option balq * three)))
@@ -106,8 +111,9 @@ Fixpoint gen_corr (g : ddgen) (ops : list gop) (obs : list gobs) : bool :=
       let '(g', ret) := match op with
                         | GU t v => gen_update g (t, qc v)
                         | GG => (g, gen_generate g)
+                        | GR _ => (g, None)
                         end in
-      gobs_matches ret g' o && gen_corr g' ops' obs'
+      negb (match op with GR c => c | _ => false end) && gobs_matches ret g' o && gen_corr g' ops' obs'
   | _, _ => false
   end.
 
@@ -138,6 +144,7 @@ Fixpoint asset_corr (a : asset_ts) (ops : list aop)
   | AU t tot fr :: ops', (None, st) :: obs' =>
       let a' := asset_update a t (qc tot, qc fr) in
       astate_close a' st && asset_corr a' ops' obs'
+  | AR c :: ops', (None, st) :: obs' => negb c && astate_close a st && asset_corr a ops' obs'
   | AG :: ops', (Some (bal, rep), st) :: obs' =>
       let '(a', (b, r)) := asset_generate a in
       opt_b bal_exact b bal && report_close r rep && astate_close a' st && asset_corr a' ops' obs'
@@ -154,6 +161,7 @@ Fixpoint inst_corr (s : inst_ts) (ops : list iop)
   | IU t pnl :: ops', (None, st) :: obs' =>
       let s' := inst_update s t (qc pnl) in
       istate_close s' st && inst_corr s' ops' obs'
+  | IR c :: ops', (None, st) :: obs' => negb c && istate_close s st && inst_corr s ops' obs'
   | IG :: ops', (Some (pnl, rep), st) :: obs' =>
       let '(s', r) := inst_generate s in
       exact (i_pnl s) pnl && report_close r rep && istate_close s' st && inst_corr s' ops' obs'
@@ -192,7 +200,7 @@ Fixpoint proj_inst (i : nat) (ops : list sop) (obs : list sobs) : option (list i
           match op, rep with
           | SP k t pnl, None =>
               if Nat.eqb k i then Some (IU t pnl :: po, (None, st) :: pb) else Some (po, pb)
-          | SB _ _ _ _, None => Some (po, pb)
+          | SB _ _ _ _, None | SRI _ _, None | SRA _ _, None => Some (po, pb)
           | SG, Some (ireps, _) =>
               match nth_error ireps i with
               | Some r => Some (IG :: po, (Some r, st) :: pb)
@@ -213,7 +221,7 @@ Fixpoint proj_asset (j : nat) (ops : list sop) (obs : list sobs) : option (list 
           match op, rep with
           | SB k t tot fr, None =>
               if Nat.eqb k j then Some (AU t tot fr :: po, (None, st) :: pb) else Some (po, pb)
-          | SP _ _ _, None => Some (po, pb)
+          | SP _ _ _, None | SRI _ _, None | SRA _ _, None => Some (po, pb)
           | SG, Some (_, areps) =>
               match nth_error areps j with
               | Some r => Some (AG :: po, (Some r, st) :: pb)
@@ -233,7 +241,7 @@ Fixpoint frame_inst (i : nat) (prev : istate) (ops : list sop) (obs : list sobs)
       | Some st =>
           match op with
           | SP k _ _ => Nat.eqb k i || istate_same prev st
-          | SB _ _ _ _ => istate_same prev st
+          | SB _ _ _ _ | SRI _ _ | SRA _ _ => istate_same prev st
           | SG => true
           end && frame_inst i st ops' obs'
       | None => false
@@ -247,7 +255,7 @@ Fixpoint frame_asset (j : nat) (prev : astate) (ops : list sop) (obs : list sobs
       | Some st =>
           match op with
           | SB k _ _ _ => Nat.eqb k j || astate_same prev st
-          | SP _ _ _ => astate_same prev st
+          | SP _ _ _ | SRI _ _ | SRA _ _ => astate_same prev st
           | SG => true
           end && frame_asset j st ops' obs'
       | None => false
@@ -281,11 +289,11 @@ Definition corr_b (c : case) : bool :=
   match c with
   | CGen start ops obs0 obs =>
       gobs_matches None (gen_start start) obs0 && gen_corr (gen_start start) ops obs
-  | CMax init ds obs0 obs =>
-      opt_b dd_exact (max_start init) (fst obs0) && opt_b dd_exact (max_start init) (snd obs0) &&
+  | CMax init ds _ chg obs0 obs =>
+      negb chg && opt_b dd_exact (max_start init) (fst obs0) && opt_b dd_exact (max_start init) (snd obs0) &&
       max_corr (max_start init) ds obs
-  | CMean init ds obs0 obs =>
-      meanstate_close (mean_start init) (fst obs0) &&
+  | CMean init ds _ chg obs0 obs =>
+      negb chg && meanstate_close (mean_start init) (fst obs0) &&
       opt_b mean_close (mg_mean (mean_start init)) (snd obs0) &&
       mean_corr (mean_start init) ds obs
   | CAsset (t, tot, fr) ops obs0 obs =>
@@ -294,6 +302,7 @@ Definition corr_b (c : case) : bool :=
   | CInst t0 ops obs0 obs =>
       istate_close (inst_init t0) obs0 && inst_corr (inst_init t0) ops obs
   | CSummary t0 n starts ops obs0 obs =>
+      forallb (fun op => match op with SRI _ c | SRA _ c => negb c | _ => true end) ops &&
       Nat.eqb (List.length (fst obs0)) n && Nat.eqb (List.length (snd obs0)) (List.length starts) &&
       forallb (sum_inst_corr t0 ops obs0 obs) (seq 0 n) &&
       forallb (sum_asset_corr starts ops obs0 obs) (seq 0 (List.length starts))
@@ -328,6 +337,8 @@ Fixpoint gen_prop (pts : list pt) (em : list ddq) (ops : list gop) (obs : list g
          generate() = the drawdown in progress *)
       list_b dd_close (completed pts') em' && opt_b dd_close (current pts') (go_gen o) &&
       gen_prop pts' em' ops' obs'
+  | GR _ :: ops', o :: obs' =>
+      opt_b dd_close (current pts) (go_gen o) && gen_prop pts em ops' obs'
   | GG :: ops', o :: obs' =>
       opt_b dd_close (current pts) (go_ret o) && opt_b dd_close (current pts) (go_gen o) &&
       gen_prop pts em ops' obs'
@@ -361,6 +372,7 @@ Fixpoint asset_prop (pts : list pt) (ops : list aop)
   match ops, obs with
   | [], [] => true
   | AU t tot _ :: ops', (None, _) :: obs' => asset_prop (pts ++ [(t, qc tot)]) ops' obs'
+  | AR _ :: ops', (None, _) :: obs' => asset_prop pts ops' obs'
   | AG :: ops', (Some (_, rep), _) :: obs' => sheet_ok pts rep && asset_prop pts ops' obs'
   | _, _ => false
   end.
@@ -370,6 +382,7 @@ Fixpoint inst_prop (raw : Qc) (pts : list pt) (ops : list iop)
   | [], [] => true
   | IU t pnl :: ops', (None, _) :: obs' =>
       let raw' := (raw + qc pnl)%Qc in inst_prop raw' (pts ++ [(t, raw')]) ops' obs'
+  | IR _ :: ops', (None, _) :: obs' => inst_prop raw pts ops' obs'
   | IG :: ops', (Some (_, rep), _) :: obs' => sheet_ok pts rep && inst_prop raw pts ops' obs'
   | _, _ => false
   end.
@@ -379,13 +392,13 @@ Fixpoint inst_prop (raw : Qc) (pts : list pt) (ops : list iop)
 Definition first_gen_value (start : option (Z * Q)) (ops : list gop) : option Q :=
   match start with
   | Some (_, v) => Some v
-  | None => match filter (fun op => match op with GU _ _ => true | GG => false end) ops with
+  | None => match filter (fun op => match op with GU _ _ => true | _ => false end) ops with
             | GU _ v :: _ => Some v
             | _ => None
             end
   end.
 Definition first_inst_value (ops : list iop) : option Q :=
-  match filter (fun op => match op with IU _ _ => true | IG => false end) ops with
+  match filter (fun op => match op with IU _ _ => true | _ => false end) ops with
   | IU _ v :: _ => Some v
   | _ => None
   end.
@@ -412,10 +425,10 @@ Definition prop_b (c : case) : bool :=
       let pts0 := match start with None => [] | Some (t, v) => [(t, qc v)] end in
       opt_b dd_close None (go_ret obs0) && opt_b dd_close (current pts0) (go_gen obs0) &&
       gen_prop pts0 [] ops obs
-  | CMax init ds obs0 obs =>
+  | CMax init ds _ _ obs0 obs =>
       max_ok dd_exact (start_list init) (fst obs0) && max_ok dd_exact (start_list init) (snd obs0) &&
       max_prop (start_list init) ds obs
-  | CMean init ds obs0 obs =>
+  | CMean init ds _ _ obs0 obs =>
       mean_ok (start_list init) (snd (fst obs0)) && mean_ok (start_list init) (snd obs0) &&
       mean_prop (start_list init) ds obs
   | CAsset (t, tot, _) ops _ obs => asset_prop [(t, qc tot)] ops obs
